@@ -28,6 +28,7 @@ import c09_tables  # noqa: E402
 
 GEN = os.path.join(core.LEAN_DIR, "UtapModel", "Gen", "C09Tables.lean")
 MODULE = "UtapModel.Props.C09"
+LAST_TABLES = GEN[:-5] + ".last.json"      # tables of the last good translation (committed with Gen/): the search uses them when the tie is broken
 CORPUS = os.path.join(core.VERIF, "corpus", "c09")
 VARIANT = os.environ.get("C09_VARIANT", "plain")  # bulk of the pairs; the every-site rewrites are repeated on the ASan+UBSan build
 MASK_NEW = 10   # syntax_t::NEW | GUIDING   (parse_XTA(..., newxta = true, ...))
@@ -994,7 +995,10 @@ QUERIES = ["A[] cnt >= 0", "E<> cnt > lim and not flag", "A[] not deadlock", "E<
            "cnt > 1 --> lim > 0", "A[] forall (i : idx_t) arr[i] >= 0", "E<> exists (i : idx_t) arr[i] == cnt", "A<> P0.lc > 2 imply flag",
            "E[] (cnt < 10)", "sup: cnt, lim", "inf{flag}: gc", "sup{cnt > 0}: P0.lc", "bounds: cnt", "A[] twice(cnt) >= cnt",
            "A[] arr[0] + arr[1] * arr[2] <= 9", "E<> sum (i : idx_t) arr[i] > 2", "Pr[<=10](<> cnt > 2)", "simulate [<=10] {cnt, lim}",
-           "E<> cnt ==", "A[] undefinedName > 1", "A[] (flag ? cnt : lim) > 0", "E<> P0.Busy and (cnt := 3) > 1"]
+           "E<> cnt ==", "A[] undefinedName > 1", "A[] (flag ? cnt : lim) > 0", "E<> P0.Busy and (cnt := 3) > 1",
+           # query productions outside `Expression` that mention an operator alias themselves (Gen.aliasContexts): the Buchi objective
+           "control: A[] (cnt >= 0 and A<> P0.Busy)", "control: A[] (not flag or cnt > 0 and A<> P1.Idle)",
+           "control: A[] (cnt >= 0 && A<> P0.Busy)", "control: A<> P0.Busy and not flag", "control: A[ cnt >= 0 U P0.Busy or flag ]"]
 QTRIVIA = [("blank", " "), ("tab", "\t"), ("mixed", " \t "), ("blockcomment", "/* c */"), ("emptyblock", "/**/"), ("starcomment", "/***/")]
 MASK_PROPERTY = 4
 
@@ -1190,7 +1194,7 @@ def run(ctx):
         # keep going with the last generated tables so that the search for a failing input can run
         text = open(GEN).read()
         try:
-            _, tables = None, json.load(open(os.path.join(core.CACHE, "c09-last-tables.json")))
+            _, tables = None, json.load(open(LAST_TABLES))
         except Exception:  # noqa
             tables = None
     elif not ok:
@@ -1198,7 +1202,7 @@ def run(ctx):
         ctx.log("proof broken:", broken or log[-1500:])
     if tables is not None and not tie_err:
         json.dump({k: tables[k] for k in ("rules", "keywords", "maxlen", "bits", "toks", "soft", "expect_fixed")} | {"grammar": tables["grammar"]},
-                  open(os.path.join(core.CACHE, "c09-last-tables.json"), "w"))
+                  open(LAST_TABLES, "w"), sort_keys=True)
     # 3/4 the implementation ----------------------------------------------------------------------------------------
     b = core.build_repo(VARIANT)
     exe = core.build_harness(b, "c09", ["c09.cpp"])
